@@ -336,7 +336,10 @@ def guarded(fn, inp, kind):
 
 
 def run(inp):
-    k = inp["kind"]
+    k = str(inp["kind"])
+    while k.startswith(("corpus:", "replay:")):  # a replayed corpus case carries both prefixes
+        k = k.split(":", 1)[1]
+    inp = dict(inp, kind=k)
     if k in ("lottery-diss", "lottery-raw"):
         return run_lottery(inp)
     if k == "zero-total":
